@@ -51,6 +51,18 @@ def sign(key, msg):
     return s
 
 
+def sign2(key, msg):
+    """a SECOND valid signature of the same message under the same key (ECDSA signatures are not unique)"""
+    k = (key.pub, msg, 2)
+    s = _sig_cache.get(k)
+    if s is None:
+        s = key.sk.sign_deterministic(msg, extra_entropy=b'another nonce')
+        if s == sign(key, msg):
+            s = key.sk.sign_deterministic(msg, extra_entropy=b'yet another nonce')
+        _sig_cache[k] = s
+    return s
+
+
 def ref(txid, index):
     return OutputReference(txid, index)
 
@@ -66,6 +78,8 @@ def mk_tx(ins, outs, sign_msg=None):
     for r, s in ins:
         if isinstance(s, Key):
             sig = SECP256k1Signature(sign(s, msg))
+        elif isinstance(s, tuple) and s[0] == 'second-signature':
+            sig = SECP256k1Signature(sign2(s[1], msg))
         elif isinstance(s, tuple) and s[0] == 'raw':
             sig = SECP256k1Signature(s[1])
         else:
